@@ -99,8 +99,9 @@ static void build_table() {
     if (n >= 2) g_multi.push_back((int)g_rows.size());
     g_rows.push_back(r);
   }
-  // an 8/30-2 code that is not in its own column may still be resolved through its 12 VPS bits
-  // (both are PDC CNIs); the model does not decide such values: remove them from "known unknowns"
+  // A received value that is not an unambiguous code of its column (a corrupted word; an 8/30-2 value that a
+  // receiver may still resolve through its 12 VPS bits, both being PDC CNIs) is not decided by the model: lookup()
+  // returns 0 and any nuid / name is accepted for it.
 }
 // 1 = unambiguous table station (id returned), 0 = the model does not decide
 static int lookup(int carrier, int value, int* id) {
@@ -327,7 +328,9 @@ struct C13 : World {
         Op o; o.task = t; o.kind = "rx";
         int f = F_NONE;
         if (faults && r.chance(1, 7)) { f = (int)r.below(F_N); if (!(enabled >> f & 1)) f = F_NONE; }
-        o.a = {f, 1 + (int64_t)r.below(0xFFFF), (int64_t)r.below(1000)};
+        // deviation masks: line noise is mostly one or two flipped bits
+        int64_t mask = r.chance(1, 2) ? (int64_t)1 << r.below(16) : r.chance(1, 2) ? ((int64_t)1 << r.below(16)) | ((int64_t)1 << r.below(16)) : 1 + (int64_t)r.below(0xFFFF);
+        o.a = {f, mask, (int64_t)r.below(1000)};
         p.ops.push_back(o);
       }
     }
@@ -771,13 +774,13 @@ struct C13 : World {
     ctx->log("station row %d id %d vps=%x 8301=%x 8302=%x mask=%x wss=%04x", a.row, row.id, a.has[0] ? a.code[0] : 0, a.has[1] ? a.code[1] : 0, a.has[2] ? a.code[2] : 0, mask, a.has_wss ? a.wss : -1);
   }
   static void set_wss(Air& a, int v) {
-    // bits: format code with correct parity unless (v & 0x2000 and v & 0x1000) -> persistent bad parity (1 in 4 of those)
+    // format code with correct parity, unless bits 12 and 13 of v are both set: persistently wrong parity (1 station in 4)
     static const int fmt[8] = {0x8, 0x1, 0x2, 0xB, 0x4, 0xD, 0xE, 0x7};  // EN 300 294 Table 1: b0-b2 with odd parity b3
     int w = fmt[v & 7];
     w |= v & 0x1F0;                 // film, colour coding, helper, reserved, teletext subtitles
     int s = (v >> 9) & 3; if (s == 3) s = 0;  // subtitle code 11 is reserved: not transmitted
     w |= s << 9;
-    w |= v & 0x3800 & 0x3800;       // surround, copyright, generation
+    w |= v & 0x3800;                // surround, copyright, generation
     w &= 0x3FFF;
     if (((v >> 12) & 3) == 3) w ^= 8;  // a station with a broken encoder: parity bit wrong all the time
     a.wss = w;
@@ -795,7 +798,7 @@ struct C13 : World {
     if (f == F_DROP) { ctx->count("fault_drop"); return; }
     int raw = air.dc3 ? 0xDC3 : air.code[C_VPS]; bool b3 = air.dc3 ? air.code[C_VPS] == 0xDC1 : (air.junk >> 20 & 1);
     Pid q = air.prog; Line L; L.kind = L_VPS;
-    if (f == F_CNI) { int m = arg & 0xFFF; if (!m) m = 1; raw ^= m; if (raw == 0) raw ^= 0x800; L.faulted = true; ctx->count("fault_vps_cni"); }
+    if (f == F_CNI) { int m = arg & 0xFFF; if (!m) m = (arg >> 4) & 0xFFF; if (!m) m = 1; raw ^= m; if (raw == 0) raw ^= 0x800; L.faulted = true; ctx->count("fault_vps_cni"); }
     if (f == F_FIELD) { q.pil ^= (arg & 0xFFFFF) ? (arg & 0xFFFFF) : 1; q.pty ^= arg >> 8 & 0xFF; L.faulted = true; ctx->count("fault_vps_pil"); }
     L.cni = vps_value(raw, b3); L.pid = q; L.pid.cni = L.cni;
     vbi_sliced s; memset(&s, 0, sizeof s); s.id = VBI_SLICED_VPS; s.line = 16;
@@ -833,7 +836,7 @@ struct C13 : World {
     int f = fault_of(op); int arg = (int)llabs(op.arg(1));
     if (f == F_DROP) { ctx->count("fault_drop"); return; }
     int w = air.wss; Line L; L.kind = L_WSS;
-    if (f == F_CNI) { int m = arg & 0x3FFF; if (!m) m = 1; w ^= m; L.faulted = true; ctx->count("fault_wss_word"); }
+    if (f == F_CNI) { int m = arg & 0x3FFF; if (!m) m = (arg >> 2) & 0x3FFF; if (!m) m = 1; w ^= m; L.faulted = true; ctx->count("fault_wss_word"); }
     if (f == F_FIELD) { w ^= 1 << (arg & 3); L.faulted = true; ctx->count("fault_wss_parity"); }
     L.word = w;
     vbi_sliced s; memset(&s, 0, sizeof s); s.id = VBI_SLICED_WSS_625; s.line = 23; s.data[0] = (uint8_t)(w & 0xFF); s.data[1] = (uint8_t)(w >> 8 & 0x3F);
